@@ -313,6 +313,60 @@ func scenarioC08(r *Run) {
 		s := gen.Session(p, SessShape{})
 		return s, s.PDRs[0].EffUEIP()
 	}
+	if r.Ch.Choose(40, "long-history") == 1 {
+		// a long history: the same well-formed flow description for many UEs in a
+		// row, then again for the first UE (whose session was deleted meanwhile):
+		// every PDR matches what the description denotes for *its* UE address
+		var f *refFlow
+		for k := 0; k < 30; k++ {
+			if x := g.flow(); x.valid && strings.Contains(x.text, "assigned") {
+				f = x
+				break
+			}
+		}
+		if f == nil {
+			return
+		}
+		uplink := r.Ch.Choose(2, "ul") == 1
+		est := func(like *CPSession) (*CPSession, bool) {
+			s, ue := newSession()
+			if like != nil {
+				for _, x := range s.PDRs {
+					x.UEIP = like.PDRs[0].UEIP
+				}
+				ue = like.PDRs[0].EffUEIP()
+			}
+			pd := s.PDRs[1]
+			if uplink {
+				pd = s.PDRs[0]
+			}
+			pd.SDF = &FlowSpec{Text: f.text}
+			if res := p.Establish(s); !res.Accepted {
+				return nil, false
+			}
+			r.Accepted++
+			if m := compareFilter(entriesOf(b, s.UPSEID, pd.ID), inlineExpect(f, uplink, ue)); m != "" {
+				r.Violate("C08", "sdf-filter-mismatch:long-history", "flow description %q on the %s PDR of the %d-th session of the run (UE %v): %s", f.text, map[bool]string{true: "uplink", false: "downlink"}[uplink], ueN, u32IP(ue), m)
+				return s, false
+			}
+			return s, true
+		}
+		first, ok := est(nil)
+		n := 66 + r.Ch.Choose(40, "long-n")
+		for i := 0; i < n && ok && r.AgentAlive(); i++ {
+			_, ok = est(nil)
+		}
+		if ok && first != nil {
+			if dr := p.Delete(first); dr.Accepted {
+				est(first)
+			}
+		}
+		r.Op("%d sessions in a row with the flow description %q, then the first UE again", ueN, f.text)
+		r.Probe("long-history-of-one-flow-description")
+		r.Skel("long-history")
+		r.CheckNoPanics("C08")
+		return
+	}
 	// one run in three: two associations, each with a PFD table of its own (the same
 	// application ids, other filters); what one provisions says nothing about the other
 	peers := []*Peer{p}
